@@ -11,6 +11,7 @@ R  the same spaces through the real euclidean/manhattan/great_circle_distance (r
 T  seeded random point tables (plane and sphere) and random strings.
 """
 import itertools
+import os
 import random
 import re
 
@@ -224,6 +225,9 @@ def check_worker(cases):
             raise core.MachineryError("c19 worker failed on %s: %s" % (c.get("job"), c["worker_error"]))
 
 
+SEEN = {}
+
+
 def judge_group(ctx, module, cases, fields, name, keyfn, parallel=1, drift_clauses=()):
     if not cases:
         return
@@ -239,8 +243,10 @@ def judge_group(ctx, module, cases, fields, name, keyfn, parallel=1, drift_claus
             if cl in drift_clauses:
                 ctx.report_drift("%s: %s %s" % (key, what, extra))
             else:
-                small = {k: c[k] for k in c if k not in ("bits",)}
-                ctx.violation(key, cl, small, "%s %s" % (what, extra))
+                SEEN[key] = SEEN.get(key, 0) + 1
+                if SEEN[key] <= 3:           # at most three replay files per failing class
+                    small = {k: c[k] for k in c if k not in ("bits",)}
+                    ctx.violation(key, cl, small, "%s %s" % (what.replace("\n", " "), extra))
         elif extra.startswith("drift"):
             ctx.report_drift("%s: %s" % (name, (c.get("s"), extra)))
 
@@ -262,6 +268,9 @@ def run(ctx):
     ]
     rng = random.Random(ctx.seed * 104729 + 19)
     thorough = ctx.tier == "thorough"
+    SEEN.clear()
+    if os.environ.get("VERIF_C19_STAGE") == "R":       # development aid: replay only (mutation testing)
+        return replay(ctx, rng)
 
     # ---------------------------------------------------------------- M
     inv_m = ["ManSymmetric", "ManIdentity", "ManNonNeg", "ManTriangle", "EucSymmetric", "EucIdentity",
@@ -297,6 +306,10 @@ def run(ctx):
     ctx.exhaustive = True
 
     # ---------------------------------------------------------------- R / T : one fan-out over the real code
+    replay(ctx, rng)
+
+
+def replay(ctx, rng):
     jobs = (plane_jobs(rng, ctx.tier) + sphere_jobs(rng, ctx.tier) + range_jobs(rng) + kernel_jobs(rng, ctx.tier)
             + cellsize_jobs() + custom_jobs() + parse_jobs(rng, ctx.tier))
     cases = core.run_jobs("c19_worker", jobs, nproc=16)
@@ -374,6 +387,9 @@ def run(ctx):
     ctx.sample({"kind": "parse", "cases": [(c["s"], c["pub"], c.get("raw")) for c in pc[:12]]})
     ctx.extra["strings_replayed"] = len(pc)
     ctx.extra["kernels_replayed"] = len(kc)
+    for key, n in sorted(SEEN.items()):
+        if n > 3:
+            ctx.note("%s: %d failing cases (3 replay files written)" % (key, n))
 
 
 META = {
